@@ -427,7 +427,9 @@ fn gen_kind(s: &mut Incent, rng: &mut Rng, ctx: &mut Ctx, o: &crate::scen::incen
                 ctx.probe("gen_avoided_cw20_flow_expansion");
                 return None;
             }
-            let asset = if rng.chance(1, 15) { rng.idx(5) } else { s.asset_index(&f.asset).unwrap_or(A_WHALE) };
+            let mut asset = if rng.chance(1, 15) { rng.idx(5) } else { s.asset_index(&f.asset).unwrap_or(A_WHALE) };
+            // hostile: the expansion of a cw20 flow is paid in a NATIVE coin whose denom is the token's address
+            let lookalike = !f_native && rng.chance(1, 4);
             let actor = match rng.below(10) {
                 0..=5 => s.accts.iter().position(|a| *a == f.creator).filter(|i| *i < na).unwrap_or(0),
                 6 | 7 => s.i_creator(rng.idx(2)),
@@ -456,7 +458,12 @@ fn gen_kind(s: &mut Incent, rng: &mut Rng, ctx: &mut Ctx, o: &crate::scen::incen
                     }
                 }
             }
-            mk(actor, Op::ExpandFlow { flow: flow_ref(rng, f.id, &f.label), asset, declared, sent, end }, adv_s, fault)
+            let (declared, sent) = if lookalike { let x = declared.min(1_000_000_000); (x, x) } else { (declared, sent) };
+            if lookalike {
+                asset = 100 + s.asset_index(&f.asset).unwrap_or(A_RWD);
+                ctx.probe("gen_expansion_paid_in_lookalike_native_coin");
+            }
+            mk(actor, Op::ExpandFlow { flow: flow_ref(rng, f.id, &f.label), asset, declared, sent, end }, adv_s, if lookalike { Fault::None } else { fault })
         }
         // ---- close flow
         7 => {
